@@ -55,6 +55,10 @@ READ_FILES = {
     "headererr": BASE.replace("WELL. my well : name", "WELL my well no delimiters at all").encode("ascii"),
     "reshape": WRAPPED.replace("3.0\n30.5\n", "3.0\n").encode("ascii"),
     "undecodable": BASE.replace("my well", "bad \xff\xfe bytes").encode("latin-1"),
+    # files shorter than any byte-order mark or sniffing window
+    "empty": b"", "1byte": b"~", "2bytes": b"~A", "3bytes": b"~A\n", "4bytes": b"~V\n\n",
+    # encodings whose decoder carries state across a rewind (byte-order mark at the start)
+    "utf16": NONASCII.encode("utf-16"), "utf32": NONASCII.encode("utf-32"), "utf16le": NONASCII.encode("utf-16-le"),
 }
 
 READ_SCENARIOS = [
@@ -80,6 +84,24 @@ READ_SCENARIOS = [
     ("read:reshape", "reshape", {}, False),
     ("read:undecodable:strict", "undecodable", {"encoding": "utf-8", "encoding_errors": "strict"}, False),
     ("read:missing", None, {}, False),
+    ("read:empty", "empty", {}, False),
+    ("read:empty:pathlib", "empty", {}, True),
+    ("read:empty:noauto", "empty", {"autodetect_encoding": False}, False),
+    ("read:empty:encoding", "empty", {"encoding": "utf-8"}, False),
+    ("read:1byte", "1byte", {}, False),
+    ("read:2bytes", "2bytes", {}, False),
+    ("read:2bytes:pathlib", "2bytes", {}, True),
+    ("read:3bytes", "3bytes", {}, False),
+    ("read:4bytes", "4bytes", {}, False),
+    ("read:utf16:default", "utf16", {}, False),
+    ("read:utf16:pathlib", "utf16", {}, True),
+    ("read:utf16:encoding", "utf16", {"encoding": "utf-16"}, False),
+    ("read:utf16:encoding-upper", "utf16", {"encoding": "UTF-16"}, True),
+    ("read:utf32:encoding", "utf32", {"encoding": "utf-32"}, False),
+    ("read:utf32:default", "utf32", {}, False),
+    ("read:utf16le:encoding", "utf16le", {"encoding": "utf-16-le"}, False),
+    ("read:plain:encoding-utf16", "plain", {"encoding": "utf-16"}, False),
+    ("read:headererr:utf16", "utf16", {"encoding": "utf-16", "ignore_header_errors": False, "engine": "normal"}, False),
 ]
 
 
